@@ -64,11 +64,21 @@ def getAt : List Bool → Tree α → Tree α
   | false :: p, .node l _ _ => getAt p l
   | true :: p, .node _ _ r => getAt p r
 
+/-- One iteration of the bubble-up loop of `heap_insert` seen from the parent
+    `y` whose child subtree `c'` was just rebuilt: if the new element `x` is
+    still moving (`fl`, then it is the root of `c'`) and `cmp(x, y) > 0`, the
+    two exchange places; otherwise the loop has stopped for good.  Returns
+    the child subtree, the element at the parent position and the flag. -/
+def bubble (gt : α → α → Bool) (x : α) (c' : Tree α) (fl : Bool) (y : α) : Tree α × α × Bool :=
+  match c', fl && gt x y with
+  | .node cl _ cr, true => (.node cl y cr, x, true)
+  | _, _ => (c', y, false)
+
 /-- `heap_insert` below the root: walk the moves, hang the new element at the
     end (which must be a free slot, else `die`), then on the way back perform
     the bubble-up loop `while (parent && cmp(node, parent) > 0)`.  The Boolean
     says "the new element is the root of the returned subtree and the loop is
-    still running"; once a comparison fails the loop has stopped for good. -/
+    still running". -/
 def insAt (gt : α → α → Bool) (x : α) : List Bool → Tree α → Option (Tree α × Bool)
   | [], .nil => some (.node .nil x .nil, true)
   | [], .node _ _ _ => none
@@ -77,20 +87,14 @@ def insAt (gt : α → α → Bool) (x : α) : List Bool → Tree α → Option 
     match insAt gt x p l with
     | none => none
     | some (l', fl) =>
-      match l' with
-      | .node cl _ cr =>
-        if fl && gt x y then some (.node (.node cl y cr) x r, true)
-        else some (.node l' y r, false)
-      | .nil => none
+      let b := bubble gt x l' fl y
+      some (.node b.1 b.2.1 r, b.2.2)
   | true :: p, .node l y r =>
     match insAt gt x p r with
     | none => none
     | some (r', fl) =>
-      match r' with
-      | .node cl _ cr =>
-        if fl && gt x y then some (.node l x (.node cl y cr), true)
-        else some (.node l y r', false)
-      | .nil => none
+      let b := bubble gt x r' fl y
+      some (.node l b.2.1 b.1, b.2.2)
 
 /-- `heap_insert`.  With a non-empty heap the parent is node `size/2` (after
     the increment) and the side is the parity of the new size. -/
